@@ -83,6 +83,7 @@ type ViewWorld struct {
 	a         []*rosmar.Collection
 	views     map[string]bool // views currently in the design document
 	v1changed bool
+	ddocPuts  [2]int // design-document puts by each handle since the other handle last changed it (capped): what a per-handle cache could know
 	dropped   bool
 	step      int
 }
@@ -115,12 +116,18 @@ func (w *ViewWorld) ddoc(changed, withV2 bool) *sgbucket.DesignDoc {
 	if withV2 {
 		vm["v2"] = sgbucket.ViewDef{Map: viewDefs["v2"]}
 	}
-	return &sgbucket.DesignDoc{Views: vm}
+	return &sgbucket.DesignDoc{Language: "javascript", Views: vm} // the form GetDDoc returns, so that an unchanged put is recognised as one
 }
 
 func (w *ViewWorld) putDDoc(h int, changed, withV2 bool) error {
 	err := w.a[h].PutDDoc(ctx, "dd", w.ddoc(changed, withV2))
 	if err == nil {
+		if changed != w.v1changed || withV2 != w.views["v2"] || len(w.views) == 0 {
+			w.ddocPuts[1-h] = 0
+		}
+		if w.ddocPuts[h] < 2 {
+			w.ddocPuts[h]++
+		}
 		w.v1changed = changed
 		w.views = map[string]bool{"v1": true, "v1c": true, "v3": true}
 		if withV2 {
@@ -330,6 +337,9 @@ func viewParamSets() []paramSet {
 			}
 			return r
 		}},
+		// one key given as a key list, with a limit. (Several keys, or a key list without a limit, go through
+		// sg-bucket's FilterKeys, which keeps one row per key: a dependency's choice, not judged here.)
+		{"keys=[2],limit=1", map[string]any{"keys": []any{2}, "limit": 1}, func(r []vrow) []vrow { return firstN(keysOf(r, 2), 1) }},
 		{"descending", map[string]any{"descending": true}, func(r []vrow) []vrow {
 			out := append([]vrow(nil), r...)
 			for i, j := 0, len(out)-1; i < j; i, j = i+1, j-1 {
@@ -338,6 +348,26 @@ func viewParamSets() []paramSet {
 			return out
 		}},
 	}
+}
+
+// keysOf: the rows whose key equals one of the given (ascending) keys, in view order.
+func keysOf(r []vrow, keys ...float64) []vrow {
+	var out []vrow
+	for _, k := range keys {
+		for _, x := range r {
+			if cmpKeys(x.key, k) == 0 {
+				out = append(out, x)
+			}
+		}
+	}
+	return out
+}
+
+func firstN(r []vrow, n int) []vrow {
+	if len(r) > n {
+		return r[:n]
+	}
+	return r
 }
 
 func rowsString(rows []vrow) string {
@@ -452,7 +482,7 @@ func (w *ViewWorld) Canon() string {
 			fmt.Fprintf(&b, "%s/%s:%d#%d:%v;", v.DDoc, v.View, len(v.MapFn), rank[v.LastCas], v.Mapped)
 		}
 	}
-	fmt.Fprintf(&b, "|changed=%v caches=%s/%s", w.v1changed, CacheState(w.h[0]), CacheState(w.h[1]))
+	fmt.Fprintf(&b, "|changed=%v ddocputs=%v caches=%s/%s", w.v1changed, w.ddocPuts, CacheState(w.h[0]), CacheState(w.h[1]))
 	return b.String()
 }
 
